@@ -49,14 +49,19 @@ RPairs   == {[t |-> "RPair", chain |-> "ethereum", amt |-> a, both |-> b, world 
 OPrices  == {[t |-> "OPrice", chain |-> "ethereum", val |-> v, voters |-> n, world |-> w] :
                v \in {"one", "maxdec", "tiny"}, n \in {1, 2, 3}, w \in {"plain", "keys+prices"}}
 
-Cases == Deposits \cup ToHubs \cup Execs \cup SSExecs \cup CCExecs \cup Sends \cup Pairs \cup RPairs \cup OPrices
+\* oracle holders claims: the first voter's claim has the given shape (no holders field at all, an empty list, a huge value),
+\* the others report an ordinary list
+OHolds   == {[t |-> "OHold", chain |-> "ethereum", shape |-> sh, voters |-> n, world |-> "plain"] :
+               sh \in {"nolist", "empty", "huge", "ordinary"}, n \in {1, 2, 3}}
+
+Cases == Deposits \cup ToHubs \cup Execs \cup SSExecs \cup CCExecs \cup Sends \cup Pairs \cup RPairs \cup OPrices \cup OHolds
 
 VARIABLE case
 Init == case \in Cases
 Next == UNCHANGED case
 Spec == Init /\ [][Next]_case
 \* every case is well formed (all fields drawn from the declared classes); the behavioural claim is checked on the real code
-WellFormed == case.t \in {"Deposit", "ToHub", "Exec", "SSExec", "CCExec", "Send", "Pair", "RPair", "OPrice"} /\ case.chain \in Chains
+WellFormed == case.t \in {"Deposit", "ToHub", "Exec", "SSExec", "CCExec", "Send", "Pair", "RPair", "OPrice", "OHold"} /\ case.chain \in Chains
 
 ASSUME IF "VERIF_OUT" \in DOMAIN IOEnv THEN JsonSerialize(IOEnv.VERIF_OUT, SetToSeq(Cases)) ELSE TRUE
 =============================================================================
